@@ -100,6 +100,21 @@ func genResp(r *Rng, tier string, p *Plan) {
 			}
 			slowNext = false
 		}
+		if authMode == "slow" && op.M&1 != 0 && !park && r.Bool(0.5) {
+			// just before a request that will be in progress for a while (slow lookup):
+			// a request whose compressed body cannot be read to the end, or does not
+			// decode - whatever that leaves behind meets the two overlapping requests
+			pre := Op{K: "req", At: op.At - 40_000, I: op.I, T: "batch", S: "json", J: 1, N: int64(mk)}
+			mk++
+			if r.Bool(0.5) {
+				pre.M = 16
+			} else {
+				pre.M, pre.B = 8, true
+			}
+			if pre.At > lastAt {
+				p.Add(pre)
+			}
+		}
 		lastAt = op.At
 		p.Add(op)
 		if authMode == "slow" && op.M&1 != 0 {
